@@ -85,6 +85,17 @@ func runC04(c *core.Ctx) {
 			return true
 		},
 	}
+	// the offset check may live in a helper of the Buffer
+	facts.NewInliner(&ff, func(h *ssa.Function) bool {
+		return h.Pkg == wr.Pkg && h.Signature.Recv() != nil && structName(h.Signature.Recv().Type()) == "Buffer" && helperTouches(h, 2, func(in ssa.Instruction) bool {
+			fa, ok := in.(*ssa.FieldAddr)
+			if !ok {
+				return false
+			}
+			_, fld, _ := facts.FieldOf(fa)
+			return fld == "checkStartOffset"
+		})
+	})
 	flow := facts.PathFlow(wr, ff)
 	_ = offsetVal
 	nStore := 0
